@@ -1044,8 +1044,61 @@ impl<'a> Walk<'a> {
             }
             hir::Pat::PConstr { .. } => self.bad("PConstr"),
             hir::Pat::PStruct { .. } => self.bad("PStruct"),
-            _ => self.bad("typed-int-pattern"),
+            hir::Pat::PInt8 { value } => self.tint(&value, Ty::TInt8, -(1i128 << 7), (1i128 << 7) - 1),
+            hir::Pat::PInt16 { value } => self.tint(&value, Ty::TInt16, -(1i128 << 15), (1i128 << 15) - 1),
+            hir::Pat::PInt32 { value } => self.tint(&value, Ty::TInt32, -(1i128 << 31), (1i128 << 31) - 1),
+            hir::Pat::PInt64 { value } => self.tint(&value, Ty::TInt64, -(1i128 << 63), (1i128 << 63) - 1),
+            hir::Pat::PUInt8 { value } => self.tint(&value, Ty::TUint8, 0, (1i128 << 8) - 1),
+            hir::Pat::PUInt16 { value } => self.tint(&value, Ty::TUint16, 0, (1i128 << 16) - 1),
+            hir::Pat::PUInt32 { value } => self.tint(&value, Ty::TUint32, 0, (1i128 << 32) - 1),
+            hir::Pat::PUInt64 { value } => self.tint(&value, Ty::TUint64, 0, (1i128 << 64) - 1),
         }
+    }
+    /// an integer literal pattern with a suffix; only in-range literals (an out-of-range one adds a parse diagnostic)
+    fn tint(&mut self, value: &str, ty: Ty, lo: i128, hi: i128) -> S {
+        match value.replace('_', "").parse::<i128>() {
+            Ok(v) if v >= lo && v <= hi => {
+                self.kind("pat_typed_int");
+                tagged("ptint", vec![dump::ty(&ty)])
+            }
+            _ => self.bad("typed-int-pattern-range"),
+        }
+    }
+    /// what `infer_constructor_expr` finds for the written constructor: `(ctor constructor-type arity)` / `(noctor)` / `(ambiguous)`
+    fn ctor_info(&mut self, cref: &hir::ConstructorRef) -> Option<S> {
+        let path = match cref {
+            hir::ConstructorRef::Resolved(hir::ConstructorId::EnumVariant { enum_def, variant_idx }) => {
+                let hir::Def::EnumDef(ed) = self.table.def(*enum_def) else { return None };
+                let (vname, _) = ed.variants.get(*variant_idx as usize)?;
+                let mut segs = self.table.def_path(*enum_def).segments.clone();
+                segs.push(hir::PathSegment::new(vname.to_ident_name()));
+                hir::Path::new(segs)
+            }
+            hir::ConstructorRef::Unresolved(p) => p.clone(),
+            hir::ConstructorRef::Ambiguous { .. } => return Some(tagged("ambiguous", vec![])),
+        };
+        let variant = compiler::tast::TastIdent(path.last_ident()?.clone());
+        let ns = path.namespace_segments();
+        let env = self.genv.current();
+        let found = if ns.is_empty() {
+            env.lookup_constructor_with_namespace(None, &variant)
+        } else {
+            let name = ns.iter().map(|x| x.seg().clone()).collect::<Vec<_>>().join("::");
+            if name.contains("::") {
+                return None; // a qualified type name: another package
+            }
+            env.lookup_constructor_with_namespace(Some(&compiler::tast::TastIdent(name)), &variant)
+        };
+        Some(match found {
+            None => tagged("noctor", vec![]),
+            Some((c, cty)) => {
+                let arity = match &c {
+                    compiler::common::Constructor::Enum(ec) => env.enums().get(&ec.type_name)?.variants.get(ec.index)?.1.len(),
+                    compiler::common::Constructor::Struct(sc) => env.structs().get(&sc.type_name)?.fields.len(),
+                };
+                tagged("ctor", vec![dump::ty(&cty), n(arity)])
+            }
+        })
     }
     fn expr(&mut self, id: hir::ExprId) -> S {
         self.ids.push(id);
@@ -1120,7 +1173,13 @@ impl<'a> Walk<'a> {
             }
             hir::Expr::EFloat32 { .. } => self.bad("EFloat32"),
             hir::Expr::EFloat64 { .. } => self.bad("EFloat64"),
-            hir::Expr::EConstr { .. } => self.bad("EConstr"),
+            hir::Expr::EConstr { constructor, args } => {
+                let Some(info) = self.ctor_info(&constructor) else { return self.bad("EConstr-qualified") };
+                self.kind("constr");
+                let mut v = vec![n(i), info];
+                v.extend(args.iter().map(|e| self.expr(*e)));
+                tagged("constr", v)
+            }
             hir::Expr::EStructLiteral { .. } => self.bad("EStructLiteral"),
             hir::Expr::EArray { items } => {
                 self.kind("array");
